@@ -1,0 +1,45 @@
+/*********************************************************************************************************************
+  Verification hook (compiled in only with -DRS_DRIVER_VERIF): reports synchronisation events of the
+  packet queues to an observer installed by a test harness.  Without the define every use expands to nothing.
+*********************************************************************************************************************/
+#pragma once
+
+#ifdef RS_DRIVER_VERIF
+#include <cstddef>
+#include <memory>
+
+namespace robosense
+{
+namespace lidar
+{
+typedef void (*VerifHook)(const void* obj, char ev, const void* item, size_t a);
+inline VerifHook& verifHook()
+{
+  static VerifHook hook = nullptr;
+  return hook;
+}
+template <typename T>
+inline const void* verifId(const T&)
+{
+  return nullptr;
+}
+template <typename U>
+inline const void* verifId(const std::shared_ptr<U>& p)
+{
+  return p.get();
+}
+}  // namespace lidar
+}  // namespace robosense
+
+#define RS_VERIF_EVENT(obj, ev, item, a)                                      \
+  do                                                                          \
+  {                                                                           \
+    if (::robosense::lidar::verifHook())                                      \
+      ::robosense::lidar::verifHook()((obj), (ev), (item), (size_t)(a));      \
+  } while (0)
+#else
+#define RS_VERIF_EVENT(obj, ev, item, a) \
+  do                                     \
+  {                                      \
+  } while (0)
+#endif
